@@ -26,13 +26,14 @@ type Clause struct {
 func (c *Clause) Loc() string { return fmt.Sprintf("%s:%d", filepath.Base(c.File), c.Line) }
 
 type ModClause struct {
-	Nothing bool
-	Ghosts  []string // modifies ghost a, b
-	Heaps   []string // modifies heap F.x.y (assumed functions: which heaps may change)
-	Var     string   // modifies r :: pred(r)
-	Pred    Expr
-	Tags    []string
-	Src     string
+	Nothing  bool
+	Ghosts   []string // modifies ghost a, b
+	Heaps    []string // modifies heap F.x.y (assumed functions: which heaps may change)
+	FieldsOf string   // modifies fields T of EXPR: all field heaps of struct type T, at object EXPR
+	Var      string   // modifies r :: pred(r)
+	Pred     Expr
+	Tags     []string
+	Src      string
 }
 
 type LoopSpec struct {
@@ -335,6 +336,19 @@ func (s *Specs) LoadFile(path string, commentPrefix string) error {
 				for _, g := range strings.Split(rest[6:], ",") {
 					mc.Ghosts = append(mc.Ghosts, strings.TrimSpace(g))
 				}
+			case strings.HasPrefix(rest, "fields "):
+				// modifies fields pkg.T of expr
+				f := strings.SplitN(rest[7:], " of ", 2)
+				if len(f) != 2 {
+					return perr(it, "modifies fields TYPE of EXPR")
+				}
+				mc.FieldsOf = strings.TrimSpace(f[0])
+				mc.Var = "$r"
+				e, err := ParseExpr("$r == (" + f[1] + ")")
+				if err != nil {
+					return perr(it, "%v", err)
+				}
+				mc.Pred = e
 			case strings.HasPrefix(rest, "heap "):
 				for _, g := range strings.Split(rest[5:], ",") {
 					mc.Heaps = append(mc.Heaps, strings.TrimSpace(g))
